@@ -103,6 +103,9 @@ func (g *VCGen) calleeEffects(ci ssa.CallInstruction) (heaps []string, allocs bo
 }
 
 func (g *VCGen) contractHeaps(fc *FuncContract, callee *ssa.Function) (heaps []string, allocs bool, all bool) {
+	if fc.HasPreserves {
+		return nil, true, true
+	}
 	// translate the modifies clauses with dummy params just to learn the heaps
 	defer func() {
 		if r := recover(); r != nil {
@@ -157,10 +160,46 @@ func sigParamType(sig *types.Signature, i int) types.Type {
 	return sig.Params().At(i).Type()
 }
 
+// beforeClauses: "before <callee>: E" obligations of the enclosing function's contract
+func (g *VCGen) beforeClauses(c *ssa.CallCommon, pos token.Pos) {
+	if g.fc == nil || len(g.fc.Before) == 0 {
+		return
+	}
+	name := ""
+	if c.IsInvoke() {
+		name = c.Method.Name()
+	} else if callee := c.StaticCallee(); callee != nil {
+		name = callee.Name()
+	}
+	cls := g.fc.Before[name]
+	if len(cls) == 0 {
+		return
+	}
+	env := g.ownEnv(g.cur)
+	var blk *ssa.BasicBlock
+	if v, ok := c.Value.(ssa.Instruction); ok {
+		blk = v.Block()
+	}
+	if blk == nil {
+		for _, a := range c.Args {
+			if in, ok := a.(ssa.Instruction); ok {
+				blk = in.Block()
+			}
+		}
+	}
+	if blk != nil {
+		env.locals = g.localsAt(blk, nil)
+	}
+	for k, cl := range cls {
+		g.oblige(fmt.Sprintf("before.%s.%d@%s", name, k, g.fn.Prog.Fset.Position(pos).String()[strings.LastIndex(g.fn.Prog.Fset.Position(pos).String(), "/")+1:]), "requires", g.trGoal(env, cl), "before "+name+": "+cl.Text, pos)
+	}
+}
+
 func (g *VCGen) callInstr(ci ssa.CallInstruction, v *ssa.Call) {
 	c := ci.Common()
 	var results []SpecVal
 	pos := ci.Pos()
+	g.beforeClauses(c, pos)
 	if c.IsInvoke() {
 		results = g.invoke(c, pos, v)
 	} else if b, ok := c.Value.(*ssa.Builtin); ok {
@@ -196,6 +235,10 @@ func (g *VCGen) callInstr(ci ssa.CallInstruction, v *ssa.Call) {
 func (g *VCGen) argVals(c *ssa.CallCommon) []SpecVal {
 	var out []SpecVal
 	for _, a := range c.Args {
+		if sv, ok := g.vals[a]; ok {
+			out = append(out, sv)
+			continue
+		}
 		if _, isAddr := g.addrs[a]; isAddr {
 			out = append(out, g.escapeAddr(a))
 			continue
@@ -223,6 +266,11 @@ func (g *VCGen) staticCall(callee *ssa.Function, c *ssa.CallCommon, pos token.Po
 	if fc == nil {
 		if _, isClosure := c.Value.(*ssa.MakeClosure); !isClosure && (callee.Synthetic != "" || g.eng.isInline(callee)) {
 			return g.inlineCall(callee, g.argVals(c), pos)
+		}
+		if p := funcPkg(callee); p != nil && stdlibPure(p.Path()) {
+			in := pureExtern("standard library: "+callee.String()+" has no effect on tracked state (results unconstrained)", false)
+			g.usedTrusted[in.name] = true
+			return in.apply(g, c, pos, v)
 		}
 		panic(unsupported(fmt.Sprintf("call to %s which has no contract", callee.String())))
 	}
@@ -305,8 +353,13 @@ func (g *VCGen) applyContract(fc *FuncContract, pkg *types.Package, names []stri
 		}
 		g.pathCond = and(g.pathCond, not(q))
 	}
-	locs := g.modLocs(env, fc.Modifies)
-	post := g.havocFor(pre, locs, true)
+	var post *State
+	if fc.HasPreserves {
+		post = g.havocAllBut(pre, g.modLocs(env, fc.Preserves))
+	} else {
+		locs := g.modLocs(env, fc.Modifies)
+		post = g.havocFor(pre, locs, true)
+	}
 	g.cur = post
 	var results []SpecVal
 	for i, t := range resTypes {
@@ -481,4 +534,13 @@ func (g *VCGen) copyBuiltin(c *ssa.CallCommon, pos token.Pos, v *ssa.Call) SpecV
 		return g.define(v, n)
 	}
 	return SpecVal{n, "Int", types.Typ[types.Int]}
+}
+
+func stdlibPure(path string) bool {
+	for _, p := range []string{"strings", "strconv", "fmt", "errors", "time", "os", "log", "math", "math/rand", "bytes", "sort", "unicode", "unicode/utf8", "path/filepath", "io"} {
+		if path == p {
+			return true
+		}
+	}
+	return false
 }
